@@ -80,8 +80,9 @@ def s_next(I, recv, args, kw):
     gen = args[0]
     if gen is I.st.ghost.get('LAST_YIELD') or (isinstance(gen, VRef) and gen.cls == 'Yielded'):
         # priming a freshly yielded wait/call generator: its first yield is always the wait state (contract of waitEvent)
-        I.st.trusted_used.add('waitEvent/callEvent generators: first yield is the _State object, last yield is CallValue; only they '
-                              'yield CallValue and they always have a parent (protocol of the generator bodies: bounded stand-in only)')
+        I.st.trusted_used.add('generator protocol used when processTask primes a freshly yielded wait/call generator: its first yield is the '
+                              'wait state and its last a CallValue (PROVED on the bodies of Manager.waitEvent / callEvent under C06); still '
+                              'assumed: user handlers never yield CallValue objects themselves and wait/call generators always have a parent')
         st = I.st.fresh_ref('State')
         log(I, 'STEPS').append((gen, 'prime', 0, None))
         return st
@@ -538,3 +539,254 @@ SPECS.append(FucSpec(
     classes=EVENT_CLASSES, cover=['return', 'timed_out'],
     clause='waitEvent._on_tick: the countdown loses one per loop iteration; exactly at 0 a TimeoutError task for the parked caller is '
            'registered and both temporary handlers are removed; without a timeout nothing happens'))
+
+
+# ============================================================================= generator bodies of waitEvent / callEvent (C06)
+# The bodies are executed segment by segment: a `yield` hands the value to the contract (on_yield), which checks what the segment
+# established, applies the RELY for the suspension (what the temporary handlers and processTask may have done meanwhile - exactly
+# the guarantees proved for the three closures above and for processTask) and resumes the body.  This replaces the protocol
+# facts that used to be trusted ("first yield is the wait state, last yield is CallValue").
+G_FIELDS = dict(W_FIELDS)
+G_FIELDS.update({'st_task_event': Ref})
+G_ALIAS = dict(W_ALIAS)
+G_ALIAS.update({('State', 'task_event'): 'st_task_event'})
+
+
+def s_state_ctor(I, recv, args, kw):
+    """_State(timeout): all slots None/False, timeout as given (the class body is three lines of slot initialisation)"""
+    st = I.st.fresh_ref('State')
+    t = kw.get('timeout', args[0] if args else None)
+    for f, v in (('run', VBool(z3.BoolVal(False))), ('flag', VBool(z3.BoolVal(False))), ('timeout', lib.unopt(I, t)),
+                 ('tick_installed', VBool(z3.BoolVal(False)))):
+        I.st.write_field(st.t, f, v)
+    for f in ('st_event', 'st_task', 'st_parent', 'st_task_event', 'tick_handler'):
+        I.st.write_field(st.t, f, VRef(core.null(), None))
+    I.st.ghost['STATE'] = st
+    return st
+
+
+def s_handler_deco(I, recv, args, kw):
+    """handler(name, channel=c) -> decorator; decorator(fn) -> a handler object for (name, c, fn)"""
+    name, chan = args[0], kw.get('channel')
+
+    def deco(I2, b, a, k):
+        return VCons('TempHandler', [name, chan, a[0]])
+    return VFunc('handler-decorator', impl=deco)
+
+
+def s_addHandler_temp(I, recv, args, kw):
+    h = args[0]
+    ref = I.st.fresh_ref('Handler')
+    log(I, 'INSTALLED').append((ref, h))
+    return ref
+
+
+def wv_setup(by_object):
+    def setup(I):
+        self = obj(I, 'self', 'Manager')
+        g = I.st.ghost
+        I.st.uses_any = True
+        ch = VAny(z3.Const('wait_channel', core.AnySort()))
+        g['WCHAN'] = ch
+        g['EVENT_NAME'] = sym(I, 'event_name', Str)
+        if by_object:
+            event = obj(I, 'event', 'Event')
+            I.assume(isinst('Event', event.t), 'case: the event is given as an Event object')
+            g['ECHANS'] = I.st.choice(2, 'event_has_channels')
+            g['ECHAN'] = VAny(z3.Const('event_channel', core.AnySort()))
+        else:
+            event = g['EVENT_NAME']
+        g['BY_OBJECT'] = by_object
+        g['EVENT'] = event
+        if I.st.choice(2, 'timeout_given') == 0:
+            t = sym(I, 'timeout', Int)
+            kwargs = VCDict({'timeout': t})
+            g['TIMEOUT'] = t.t
+        else:
+            kwargs = VCDict({})
+            g['TIMEOUT'] = z3.IntVal(-1)
+        I.st.inputs['timeout'] = g['TIMEOUT']
+        return {'self': self, 'event': event, 'channels': VTuple([ch]), 'kwargs': kwargs}
+    return setup
+
+
+def _temp_of(I, fn_name):
+    """installed temporary handlers whose function is the closure fn_name: [(ref, name, channel)]"""
+    out = []
+    for ref, h in log(I, 'INSTALLED'):
+        if isinstance(h, VCons) and h.tag == 'TempHandler' and isinstance(h.args[2], VFunc) and h.args[2].name == fn_name:
+            out.append((ref, h.args[0], h.args[1]))
+    return out
+
+
+def wv_yield(I, v):
+    g = I.st.ghost
+    ys = log(I, 'YIELDS')
+    ys.append(v)
+    if len(ys) == 1:
+        cover(I, 'suspended')
+        state = g.get('STATE')
+        I.oblige('first_yield_is_the_wait_state', z3.BoolVal(state is not None and isinstance(v, VRef)) if state is None or not isinstance(v, VRef) else v.t == state.t,
+                 detail='processTask parks the caller in the object the wait generator yields first')
+        if state is None:
+            raise PathKill()
+        name = g['EVENT_NAME'].t
+        ev, dn, tk = _temp_of(I, '_on_event'), _temp_of(I, '_on_done'), _temp_of(I, '_on_tick')
+        T = g['TIMEOUT']
+        I.oblige('event_and_done_handlers_installed', z3.BoolVal(len(ev) == 1 and len(dn) == 1), detail='installed: %r' % (log(I, 'INSTALLED'),))
+        if len(ev) == 1 and len(dn) == 1:
+            I.oblige('event_handler_listens_for_the_awaited_name', lib.unopt(I, ev[0][1]).t == name)
+            I.oblige('done_handler_listens_for_its_done_event', lib.unopt(I, dn[0][1]).t == z3.Concat(name, z3.StringVal('_done')))
+            want = g['ECHAN'] if g['BY_OBJECT'] and g['ECHANS'] == 0 else g['WCHAN']
+            for nm, lst in (('event', ev), ('done', dn)):
+                c = lib.unopt(I, lst[0][2])
+                I.oblige('%s_handler_on_the_awaited_channel' % nm, z3.BoolVal(isinstance(c, VAny)) if not isinstance(c, VAny) else c.t == want.t,
+                         detail='an event given as object is awaited on its own channels, otherwise on the channels given')
+        I.oblige('countdown_installed_iff_a_timeout_was_given', z3.BoolVal(len(tk) == 1) == (T >= 0),
+                 detail='WInv established: the temporary generate_events handler exists iff timeout >= 0')
+        I.oblige('at_most_one_countdown', z3.BoolVal(len(tk) <= 1))
+        for ref, nm, c in tk:
+            I.oblige('countdown_runs_on_generate_events', lib.unopt(I, nm).t == z3.StringVal('generate_events'))
+            I.oblige('state_remembers_its_countdown_handler', I.field(state, 'tick_handler').t == ref.t,
+                     detail='_on_done removes state.tick_handler: it must be the installed one')
+        I.oblige('state_starts_unbound', z3.And(z3.Not(I.fz(state, 'run')), z3.Not(I.fz(state, 'flag')), I.field(state, 'st_event').t == core.null(),
+                                                I.fz(state, 'timeout') == T))
+        eo = I.local('event_object')
+        if g['BY_OBJECT']:
+            I.oblige('by_object_waits_for_that_very_object', z3.BoolVal(isinstance(eo, VRef)) if not isinstance(eo, VRef) else eo.t == g['EVENT'].t,
+                     detail='several calls for events of the same name may be in flight: each waiter binds to its own event object')
+        else:
+            I.oblige('by_name_binds_to_any_event_of_that_name', z3.BoolVal(isinstance(lib.unopt(I, eo), VNone)))
+        I.oblige('nothing_removed_before_suspending', z3.BoolVal(len(log(I, 'REMOVED')) == 0))
+        # ---- RELY for the suspension.  The generator is resumed only by processTask stepping the task that _on_done re-registered
+        # (a timeout re-registers a different generator and drops this one).  Guarantees of the closures (proved above):
+        #   _on_event: bound => run, event recorded, its own handler removed;  _on_done: flag, countdown handler removed.
+        for f in ('run', 'flag', 'st_event', 'timeout', 'st_task', 'st_parent', 'st_task_event', 'tick_installed', 'alert_done'):
+            I.st.havoc_field(f)
+        bound = obj(I, 'bound_event', 'Event')
+        g['BOUND'] = bound
+        I.assume(z3.And(I.fz(state, 'flag'), I.fz(state, 'run'), I.field(state, 'st_event').t == bound.t, bound.t != core.null(),
+                        z3.Not(I.fz(state, 'tick_installed'))), 'rely: resumed by _on_done of the bound event')
+        g['SEG1_REMOVED'] = 0
+        return NONE
+    if len(ys) == 2:
+        cover(I, 'result')
+        return NONE
+    raise PathKill()
+
+
+def wv_post(I, outcome, ctx):
+    if w_no_escape(I, outcome):
+        return
+    cover(I, 'return')
+    g = I.st.ghost
+    ys, rem = log(I, 'YIELDS'), log(I, 'REMOVED')
+    state = g.get('STATE')
+    I.oblige('suspends_exactly_once_then_delivers_the_result', z3.BoolVal(len(ys) == 2),
+             detail='yields: %d (the wait state, then CallValue with the result)' % len(ys))
+    if len(ys) == 2 and state is not None:
+        v = ys[1]
+        ok = isinstance(v, VCons) and v.tag == 'CallValue' and len(v.args) == 1 and isinstance(v.args[0], VRef)
+        I.oblige('last_yield_is_CallValue', z3.BoolVal(ok))
+        if ok:
+            I.oblige('result_is_the_value_of_the_bound_event', v.args[0].t == I.field(g['BOUND'], 'value').t,
+                     detail='the caller receives the result (and error flag) of the event it waited for')
+    dn = _temp_of(I, '_on_done')
+    I.oblige('done_handler_removed_after_resumption',
+             z3.BoolVal(len(rem) == 1 and len(dn) == 1) if not (len(rem) == 1 and len(dn) == 1) else
+             z3.And(rem[0][0].t == dn[0][0].t, lib.unopt(I, rem[0][1]).t == z3.Concat(g['EVENT_NAME'].t, z3.StringVal('_done'))),
+             detail='no temporary handler remains: _on_event removed itself when it bound, _on_done removed the countdown, the body removes _on_done')
+
+
+def wv_spec(by_object):
+    nm = 'Manager.waitEvent[%s]' % ('event object' if by_object else 'event name')
+    hooks = {'event.name': lambda I: I.st.ghost['EVENT_NAME'],
+             'event.channels': lambda I: VTuple([I.st.ghost['ECHAN']]) if I.st.ghost['ECHANS'] == 0 else VTuple([])}
+    return FucSpec(
+        'C06', FILE, 'Manager.waitEvent', wv_setup(by_object), wv_post, name=nm, fields=G_FIELDS, field_alias=G_ALIAS,
+        calls={'_State': s_state_ctor, 'handler': s_handler_deco, 'self.addHandler': s_addHandler_temp, 'self.removeHandler': s_removeHandler,
+               'CallValue': lambda I, r, a, k: VCons('CallValue', a)},
+        attr_hooks=hooks if by_object else {}, classes=EVENT_CLASSES | {'Event'}, on_yield=wv_yield, cover=['return', 'suspended', 'result'],
+        clause='waitEvent body (%s): first segment installs exactly the temporary handlers (event, done, countdown iff timeout >= 0) '
+               'and yields the wait state; after resumption it removes the done handler and yields CallValue(value of the bound '
+               'event) as its last value' % ('by object' if by_object else 'by name'))
+
+
+SPECS.append(wv_spec(True))
+SPECS.append(wv_spec(False))
+
+
+# --- callEvent = fire + yield from waitEvent(event by object) + CallValue(value of the fire)
+def ce_setup(I):
+    self = obj(I, 'self', 'Manager')
+    event = obj(I, 'event', 'Event')
+    g = I.st.ghost
+    I.st.uses_any = True
+    g['ECHAN'] = VAny(z3.Const('event_channel', core.AnySort()))
+    g['WCHAN'] = VAny(z3.Const('call_channel', core.AnySort()))
+    t = sym(I, 'timeout', Int)
+    g['KW'] = VCDict({'timeout': t}) if I.st.choice(2, 'timeout_given') == 0 else VCDict({})
+    return {'self': self, 'event': event, 'channels': VTuple([g['WCHAN']]), 'kwargs': g['KW']}
+
+
+def s_ce_fire(I, recv, args, kw):
+    v = I.st.fresh_ref('Value')
+    log(I, 'FIRED').append((args, v, len(log(I, 'DELEGATED'))))
+    return v
+
+
+def s_ce_wait(I, recv, args, kw):
+    return VCons('waitEvent-generator', list(args), dict(kw))
+
+
+def ce_yield_from(I, gen):
+    log(I, 'DELEGATED').append(gen)
+    return NONE
+
+
+def ce_yield(I, v):
+    log(I, 'YIELDS').append((v, len(log(I, 'DELEGATED'))))
+    return NONE
+
+
+def ce_post(I, outcome, ctx):
+    if w_no_escape(I, outcome):
+        return
+    cover(I, 'return')
+    g = I.st.ghost
+    event = ctx['args']['event']
+    fired, dele, ys = log(I, 'FIRED'), log(I, 'DELEGATED'), log(I, 'YIELDS')
+    I.oblige('fires_the_event_exactly_once_before_waiting', z3.BoolVal(len(fired) == 1 and fired[0][2] == 0))
+    if len(fired) == 1:
+        a = fired[0][0]
+        shape = len(a) == 2 and isinstance(a[0], VRef) and isinstance(a[1], VAny)
+        I.oblige('fires_the_given_event_on_the_given_channels', z3.BoolVal(False) if not shape else z3.And(a[0].t == event.t, a[1].t == g['WCHAN'].t),
+                 detail='fire(%s)' % (a,))
+    I.oblige('waits_exactly_once', z3.BoolVal(len(dele) == 1))
+    if len(dele) == 1:
+        d = dele[0]
+        ok = isinstance(d, VCons) and d.tag == 'waitEvent-generator' and len(d.args) >= 1 and isinstance(d.args[0], VRef)
+        I.oblige('waits_for_the_very_event_object_it_fired', z3.BoolVal(ok) if not ok else d.args[0].t == event.t,
+                 detail='waiting by object (not by name) keeps concurrent calls of same-named events apart')
+        if ok:
+            kws, given = d.kwargs, g['KW'].d
+            I.oblige('timeout_is_passed_on_to_the_wait', z3.BoolVal(set(kws) == set(given)) if not (set(kws) == set(given) and 'timeout' in given)
+                     else lib.unopt(I, kws['timeout']).t == given['timeout'].t)
+            chans = d.args[1:]
+            I.oblige('waits_on_the_events_own_channels', z3.BoolVal(len(chans) == 1 and isinstance(chans[0], VAny)) if not (len(chans) == 1 and isinstance(chans[0], VAny))
+                     else chans[0].t == g['ECHAN'].t)
+    after = [y for y, k in ys if k == 1]
+    before = [y for y, k in ys if k == 0]
+    I.oblige('yields_nothing_before_the_wait', z3.BoolVal(len(before) == 0))
+    ok = len(after) == 1 and isinstance(after[0], VCons) and after[0].tag == 'CallValue' and len(fired) == 1
+    I.oblige('finally_yields_CallValue_of_the_fired_events_value', z3.BoolVal(ok) if not ok else after[0].args[0].t == fired[0][1].t,
+             detail='the caller receives the Value object fire() returned for this very event')
+
+
+SPECS.append(FucSpec(
+    'C06', FILE, 'Manager.callEvent', ce_setup, ce_post, fields=G_FIELDS, field_alias=G_ALIAS,
+    calls={'self.fire': s_ce_fire, 'self.waitEvent': s_ce_wait, 'CallValue': lambda I, r, a, k: VCons('CallValue', a)},
+    attr_hooks={'event.channels': lambda I: VTuple([I.st.ghost['ECHAN']])}, classes=EVENT_CLASSES | {'Event'},
+    on_yield=ce_yield, on_yield_from=ce_yield_from, cover=['return'],
+    clause='callEvent body: fires the event once, then delegates to waitEvent for that very event object on its channels with the '
+           'caller\'s timeout, and finally yields CallValue(the Value fire returned)'))
